@@ -203,3 +203,18 @@ pub fn linked_blob_files_of(table: &crate::Table) -> crate::Result<Vec<(u64, usi
         .map(|l| (l.blob_file_id, l.len, l.bytes, l.on_disk_bytes))
         .collect())
 }
+
+// ---------------------------------------------------------------------------------------------
+// scheduling points (no-ops unless a hook is installed): placed OUTSIDE lock-held regions, immediately
+// before the critical sections of writes, rotation, flush, compaction and reads
+
+/// The installed scheduling hook
+pub static SCHED_HOOK: std::sync::OnceLock<Box<dyn Fn(&'static str) + Send + Sync>> =
+    std::sync::OnceLock::new();
+
+/// A scheduling point
+pub fn point(name: &'static str) {
+    if let Some(h) = SCHED_HOOK.get() {
+        h(name);
+    }
+}
